@@ -117,6 +117,11 @@ func judge(c Case, r genlab.ProgResult, wroteOnError bool) error {
 		}
 		return nil // hostile pool: rejected cleanly
 	case r.BuildErr != "":
+		if strings.Contains(r.BuildErr, "import cycle not allowed") && c.Opts.NoEmbedIDL && c.Pool == "hostile" {
+			// known finding K5 (the key names the configuration: the same build error with the IDL
+			// embedded would be a regression of F14 and is not covered by it)
+			return ev.Errf("uncompilable/hostile/import-cycle-not-allowed/no-embed-idl", "generation succeeded (options %s) but the emitted Go does not build:\n%s", c.Opts, r.BuildErr)
+		}
 		return ev.Errf("uncompilable/"+c.Pool+"/"+classify(r.BuildErr), "generation succeeded (options %s) but the emitted Go does not build:\n%s", c.Opts, r.BuildErr)
 	}
 	return nil
